@@ -267,6 +267,7 @@ func genProgram(r *hk.Rand) *program {
 	if sh.Method == "GET" && r.Chance(30) {
 		sh.DenyGetPay = true
 	}
+	sh.CloseConn = r.Chance(15)
 	na := 0
 	if r.Chance(30) {
 		na = r.Range(1, 2)
